@@ -67,6 +67,8 @@ def _init_worker(modname, repo):
     build.prepare(verbose=False)
     import warnings
     warnings.filterwarnings('ignore')
+    if mp.current_process().name != 'MainProcess':
+        sys.stdout = open(os.devnull, 'w')        # the library prints progress messages unconditionally in places
     _MOD = importlib.import_module(modname)
     if hasattr(_MOD, 'init_worker'):
         _MOD.init_worker()
@@ -128,6 +130,10 @@ class Runner:
                     violations.append((r['case'], f))
         for sig, (k, n) in sorted(known_hits.items()):
             print('KNOWN-FINDING: property=%s %s [%d occurrences in this run]' % (self.pid, k['what'], n))
+        if os.environ.get('VERIF_DUMP'):
+            with open(os.environ['VERIF_DUMP'], 'w') as fh:
+                for case, f in violations:
+                    fh.write(json.dumps(jsonable(dict(case=case, what=f['what'], sig=f.get('sig'), detail=f.get('detail')))) + '\n')
         seen = set()
         rdir = os.path.join(OUT_HOME, 'replay', self.pid)
         nviol = 0
